@@ -377,7 +377,16 @@ impl super::fs2::FileExt for File {
         ))
     }
     fn lock_shared(&self) -> io::Result<()> {
-        self.lock_exclusive()
+        let ofd = self.ofd;
+        flat(syscall(
+            OpKind::Lock,
+            false,
+            move |st| st.lock_enabled_mode(ofd, true),
+            move |st, rec| {
+                let pid = rec.pid;
+                st.sys_lock_mode(pid, ofd, true, rec)
+            },
+        ))
     }
     fn try_lock_exclusive(&self) -> io::Result<()> {
         let ofd = self.ofd;
@@ -391,7 +400,15 @@ impl super::fs2::FileExt for File {
         }))
     }
     fn try_lock_shared(&self) -> io::Result<()> {
-        self.try_lock_exclusive()
+        let ofd = self.ofd;
+        flat(syscall(OpKind::Lock, false, |_| true, move |st, rec| {
+            let pid = rec.pid;
+            if st.lock_enabled_mode(ofd, true) {
+                st.sys_lock_mode(pid, ofd, true, rec)
+            } else {
+                Err(io::Error::from(io::ErrorKind::WouldBlock))
+            }
+        }))
     }
     fn unlock(&self) -> io::Result<()> {
         let ofd = self.ofd;
